@@ -480,7 +480,7 @@ func randCase(rg *rand.Rand) Case {
 	for len(handles) < np {
 		segs := randPattern(rg)
 		m := methods[rg.Intn(2)]
-		if len(handles) > 0 && rg.Intn(3) == 0 {
+		if len(handles) > 0 && rg.Intn(5) == 0 {
 			segs, m = variant(rg, handles[rg.Intn(len(handles))], methods)
 		}
 		txt := patText(segs)
